@@ -125,6 +125,17 @@ def check_files(run, case, path, res):
         run.violation('coverage 1 but the Markov structure is listed', case); return False
     if any(('E' in oracles.tokens(v) or 'W' in oracles.tokens(v)) for v, p in rows):
         run.violation('a structure with an e-mail/website segment is in Grammar/grammar.txt', case, observed=[v for v, p in rows][:6]); return False
+    # ---- the N of the model as recorded in config.ini (the denominator of the Markov pseudo-count) is the number of passwords trained on
+    import configparser
+    cp = configparser.ConfigParser()
+    cp.read(os.path.join(path, 'config.ini'), encoding='utf-8')
+    sec = 'TRAINING_DATASET_DETAILS'
+    if cp.has_section(sec):
+        got = (cp.get(sec, 'number_of_passwords_in_set', fallback=None), cp.get(sec, 'number_of_encoding_errors', fallback=None))
+        want = (str(N), str(res.passes[0]['num_encoding_errors']))
+        if got != want:
+            run.violation(f'config.ini records number_of_passwords_in_set / number_of_encoding_errors = {got}, the training passes counted {want}', case); return False
+        run.ev('config_counts_compared')
     run.ev('rulesets_compared')
     return True
 
